@@ -7,7 +7,7 @@
       probes EVERY boundary between recorded mutating calls (kill image / cut images) or
       fails each call once;
    3. TLC validates the recorded call sequences and probe results against TraceFs.tla."""
-import json, os, random, re, shutil
+import json, os, random, re, shutil, time
 from common import *
 import storage
 
@@ -21,7 +21,11 @@ PROPS = {
 # PROPS, which says which properties this module's check() decides
 EXTRA = {"C05": dict(mode="fault", trace=["C05_FailedMergeKeeps"]),
          # C12 in histories with a kill: the aftermath of every crash probe ends with a restart from a copy without hint files
-         "C12": dict(mode="crash", trace=["C12_AfterCrash"])}
+         "C12": dict(mode="crash", trace=["C12_AfterCrash"]),
+         # properties about what the store reads / keeps / does to its files, judged on the runs with ONE failed call too
+         "C01f": dict(mode="fault", trace=["C01_UnderFaults"]), "C02f": dict(mode="fault", trace=["C02_UnderFaults"]),
+         "C12f": dict(mode="fault", trace=["C12_AfterCrash"]), "C13f": dict(mode="fault", trace=["C13_AfterFault"]),
+         "C14f": dict(mode="fault", trace=["C14_FsDiscipline"])}
 
 TRACE_TMPL = """SPECIFICATION Spec
 INVARIANTS
@@ -218,14 +222,36 @@ def drive(v, prop, tier, tag):
     files, summary, aborts = [], {}, []
     for label, bfile, n, maxpts in sets:
         pre = os.path.join(work, label)
-        f, sums, ab = run_shards("fsdrive", [mode, bfile, pre, "--seed", str(seed()), "--max-points", str(maxpts)],
-                                 pre, min(NCPU, max(1, n)))
+        f, sums, ab = run_shards("fsdrive", [mode, bfile, pre, "--seed", str(seed()), "--max-points", str(maxpts)] +
+                                 (["--no-aftermath"] if prop == "C14" else []), pre, min(NCPU, max(1, n)))
         files += f
         aborts += ab
         summary[label] = {k: sum(x.get(k, 0) for x in sums) for k in ("runs", "calls", "probes", "lines")}
     if aborts:
         v.cov["process_deaths_in_code_under_test"] = aborts[:10]
     return files, summary, gfile
+
+
+def under_faults(v, prop, tier, tag, keep=lambda b: True, share=2):
+    """The property `prop` on runs in which ONE system call fails (every mutating call of every kept behaviour of the
+    TLC-generated set, ENOSPC and EIO): error paths are where a store forgets its own rules.  The verdicts of TraceFs
+    that are about this property's observations (EXTRA[prop + 'f']) decide; quick: a seeded 1/share of the behaviours."""
+    gfile, ng = gen_behaviours(v, tier, tag + "-uf", "none")
+    lines = open(gfile).read().splitlines()
+    kept = [x for x in lines[1:] if keep(json.loads(x))]
+    if tier == "quick":
+        kept = [x for n, x in enumerate(kept) if (n + seed()) % share == 0]
+    open(gfile, "w").write("\n".join([lines[0]] + kept) + "\n")
+    pre = os.path.join(OUT, "work", tag + "-uf", "uf")
+    files, sums, aborts = run_shards("fsdrive", ["fault", gfile, pre, "--seed", str(seed()), "--max-points", "1000000"],
+                                     pre, min(NCPU, max(1, len(kept))))
+    if aborts:
+        v.cov.setdefault("process_deaths_in_code_under_test", []).extend(aborts[:5])
+    validate(v, prop + "f", files, tag + "-uf", report_as=prop)
+    v.cov["runs_with_one_failed_call"] = sum(x.get("runs", 0) for x in sums)
+    v.cov["behaviours_run_with_failed_calls"] = len(kept)
+    if not v.violations:
+        shutil.rmtree(os.path.join(OUT, "work", tag + "-uf"), ignore_errors=True)
 
 
 def find_run(trace_file, line):
@@ -275,8 +301,9 @@ def classify_known(prop, why, run_events):
     return None
 
 
-def validate(v, prop, files, tag):
+def validate(v, prop, files, tag, report_as=None):
     P = PROPS.get(prop) or EXTRA[prop]
+    rprop = report_as or prop
     cfg = write_cfg(f"tracefs_{prop}_{tag}.cfg", TRACE_TMPL.format(invs=" ".join(P["trace"])))
 
     def one(f):
@@ -306,7 +333,7 @@ def validate(v, prop, files, tag):
             why = m.group(1) if m else r.violated
             hdr, evs = find_run(f, line)
             run_id = evs[0].get("run", "?") if evs else "?"
-            kf = classify_known(prop, why, evs)
+            kf = classify_known(rprop, why, evs)
             if kf is not None:
                 known_seen.setdefault(kf["id"], [kf, 0])
                 known_seen[kf["id"]][1] += 1
@@ -330,14 +357,14 @@ def validate(v, prop, files, tag):
             ops = [[e.get("op")] + [e[x] for x in ("k", "v") if x in e] for e in evs if e.get("ev") == "inv" and e.get("op") != "open"]
             if evs and evs[0].get("ops"):
                 ops = evs[0]["ops"]    # the whole behaviour, wall-clock steps included
-            payload = {"property": prop, "invariant": r.violated, "why": why, "trace_file": f, "line": line, "run": run_id,
+            payload = {"property": rprop, "judge": prop, "invariant": r.violated, "why": why, "trace_file": f, "line": line, "run": run_id,
                        "seed": seed(), "header": hdr, "mode": P["mode"],
                        "behaviour": {"cfg": evs[0].get("cfg") if evs else None, "ops": ops},
                        "fault": {k: evs[0].get(k) for k in ("fault", "errno") if evs and k in evs[0]},
                        "burst": (evs[0].get("burst") or None) if evs else None,
                        "events_tail": [{k: e[k] for k in e if k not in ("st",)} for e in evs[-8:]]}
             v.violation(f"{why} [line {line} of {os.path.basename(f)}, run {run_id}] {json.dumps(payload['behaviour'])[:300]}",
-                        save_replay(prop, payload))
+                        save_replay(rprop, payload))
     for kid, (kf, n) in known_seen.items():
         v.known_finding(f"{kf['what']} ({n} runs explained)")
     v.cov["trace_events_validated"] = v.cov.get("trace_events_validated", 0) + nev
@@ -393,22 +420,34 @@ def check(prop, tier):
     tag = f"{prop}-{os.getpid()}"
     work = os.path.join(OUT, "work", tag)
     try:
+        t0 = time.time()
+        def lap(what):
+            v.cov.setdefault("phase_wall_s", {})[what] = round(time.time() - t0, 1)
         build_harness()
         model_check(v, prop, tier)
+        lap("model checking")
         files, summary, gfile = drive(v, prop, tier, tag)
+        lap("+ driver runs")
         # the files are rewritten by validate() only when a known finding is dropped from them
         mech_files = list(files)
         if PROPS[prop]["mode"] == "fault" and tier == "quick":
             # the fault traces are large (every call of every behaviour failed twice): a seeded third of the shards
             mech_files = [f for n, f in enumerate(mech_files) if (n + seed()) % 3 == 0]
         validate(v, prop, files, tag)
-        if mech_files and not v.violations:
+        lap("+ trace validation")
+        # (C14 judges the calls themselves; the step-by-step validation of the same crash traces is part of C03)
+        if mech_files and not v.violations and prop != "C14":
             mechanism(v, prop, mech_files, tag)
+        lap("+ mechanism validation")
+        if prop == "C14" and not v.violations:
+            # the same discipline on the error paths: every call of every generated behaviour failed once
+            under_faults(v, "C14", tier, tag)
         if prop == "C14":
             # content level: no file ever changes except by growing at its end / disappearing
             sfiles, ssum = storage.drive(v, tier, tag + "-s", storage.generate(v, tier, tag + "-s")[0])
             storage.validate(v, prop, sfiles, ["C14_AppendOnly", "C14_IdsOnlyGrow", "C14_SizeBound", "C14_OnlyStoreFiles"], tag)
             summary["content-level"] = {k: sum(s.get(k, 0) for s in ssum.values()) for k in ("runs", "ops")}
+            lap("+ under faults and content level")
         v.cov["traces_validated_against_impl"] = sum(s.get("runs", 0) for s in summary.values())
         v.cov["driver"] = summary
         v.cov["probes"] = sum(s.get("probes", 0) for s in summary.values())
@@ -452,7 +491,7 @@ def replay(prop, path):
         f.write(json.dumps(b) + "\n")
     pre = os.path.join(work, "re")
     files, sums, ab = run_shards("fsdrive", [rp["mode"], bfile, pre, "--seed", str(rp.get("seed", 1))], pre, 1)
-    validate(v, prop, files, tag)
+    validate(v, rp.get("judge", prop), files, tag, report_as=prop)
     v.cov["traces_validated_against_impl"] = 1
     v.cov["samples"] = [rp["behaviour"]]
     return v.finish()
